@@ -327,23 +327,28 @@ Fixpoint dup_free (seen : gmap N unit) (ks : list N) : bool :=
 
 Definition all_inputs (txs : list tx) : list N := flat_map (fun t => map input_key (t_inputs t)) txs.
 
+(* the coins created by the batch, keyed by coin id (a later transaction with the same hash overwrites) *)
+Definition batch_outputs (height : N) (txs : list tx) : gmap N cdh :=
+  fold_left (fun m t => fold_left (fun m kv => <[fst kv := snd kv]> m) (output_coins height t) m) txs ∅.
+
+(* extract_input_coins: inputs that are not outputs of the batch must be in the coin tree *)
+Fixpoint lookup_inputs (accum coins : gmap N cdh) (ks : list N) (m : gmap N cdh) : res (gmap N cdh) :=
+  match ks with
+  | [] => Ok m
+  | k :: r =>
+    match accum !! k with
+    | Some _ => lookup_inputs accum coins r m
+    | None => match coins !! k with
+              | Some c => lookup_inputs accum coins r (<[k := c]> m)
+              | None => Reject ENonexistentCoin
+              end
+    end
+  end.
+
 Definition load_relevant_coins (txs : list tx) : res (gmap N cdh) :=
   if negb (forallb (fun t => well_formed t && totals_fit t) txs) then Reject EMalformed else
-  let accum : gmap N cdh :=
-    fold_left (fun m t => fold_left (fun m kv => <[fst kv := snd kv]> m) (output_coins (s_height s) t) m) txs ∅ in
-  let fix go (ks : list N) (m : gmap N cdh) : res (gmap N cdh) :=
-    match ks with
-    | [] => Ok m
-    | k :: r =>
-      match accum !! k with
-      | Some _ => go r m
-      | None => match s_coins s !! k with
-                | Some c => go r (<[k := c]> m)
-                | None => Reject ENonexistentCoin
-                end
-      end
-    end in
-  ins <- go (all_inputs txs) ∅ ;;
+  let accum := batch_outputs (s_height s) txs in
+  ins <- lookup_inputs accum (s_coins s) (all_inputs txs) ∅ ;;
   if dup_free ∅ (all_inputs txs) then Ok (ins ∪ accum) else Reject ENonexistentCoin.
 
 Definition stake_consistent (d : stakedoc) (epoch : N) (c : coindata) : bool :=
